@@ -48,39 +48,44 @@ def opQuery : Nat := 1
 def isReplyOp (op : Nat) : Bool := op = 2 ∨ op = 11 ∨ op = 3 ∨ op = 22 ∨ op = 21   -- HIT, DECHO, MISS, DENIED, MISS_NOFETCH
 def isNopOp (op : Nat) : Bool := op = 0 ∨ op = 4                                   -- INVALID, ERR
 
+/-- offset of the URL field: queries carry the requester's address in front of it -/
+def urlOffset (op : Nat) : Nat := if op = opQuery then icpHeaderSize + 4 else icpHeaderSize
+
 /-- `icpGetUrl(from, buf, header)` with `header.length = size`: the URL or the reason for nil; second component = highest
 offset read + 1 -/
 def getUrl (m : Mem) (size op : Nat) : Except UrlErr Bytes × Nat :=
-  let urlOffset := icpHeaderSize + (if op = opQuery then 4 else 0)
-  if urlOffset ≥ size then (.error .small, 0)
+  if urlOffset op ≥ size then (.error .small, 0)
   else if rd m (size - 1) ≠ 0 then (.error .unterminated, size)
-  else
-    let n := cstrLen m urlOffset (size - 1 - urlOffset)
-    if urlOffset + n + 1 ≠ size then (.error .embedded, size)
-    else (.ok (slice m urlOffset n), size)
+  else if urlOffset op + cstrLen m (urlOffset op) (size - 1 - urlOffset op) + 1 ≠ size then (.error .embedded, size)
+  else (.ok (slice m (urlOffset op) (cstrLen m (urlOffset op) (size - 1 - urlOffset op))), size)
 
-/-- `(int) buf[1]`: `char` is signed here, versions 2 and 3 are positive, so the comparison is on the octet -/
+/-- what becomes of a datagram of `len >= 1` octets once the terminator is in place (`m1`): the outcome and how far the
+handler reads.  `(int) buf[1]`: `char` is signed here, versions 2 and 3 are positive, so the comparison is on the octet. -/
+def classify (m1 : Mem) (len : Nat) : Outcome × Nat :=
+  let ver := rd m1 1
+  -- icp_common_t header(buf, len): memcpy of the 20 header octets, length = ntohs(...)
+  let hlen := rd m1 2 * 256 + rd m1 3
+  let op := rd m1 0
+  if len < icpHeaderSize then (.ignoreShort, 0)
+  else if ver ≠ 2 ∧ ver ≠ 3 then (.ignoreVersion, icpHeaderSize)
+  else if len ≠ hlen then (.badLen, icpHeaderSize)
+  else if op = opQuery then
+    (match (getUrl m1 hlen op).1 with
+      | .error e => .queryBadUrl e
+      | .ok u => .query u, max icpHeaderSize (getUrl m1 hlen op).2)
+  else if isReplyOp op then
+    (match (getUrl m1 hlen op).1 with
+      | .error e => .replyBadUrl e
+      | .ok u => .reply u, max icpHeaderSize (getUrl m1 hlen op).2)
+  else if isNopOp op then (.nop, icpHeaderSize)
+  else (.unknownOp, icpHeaderSize)
+
+/-- one pass of the `while (max)` loop of `icpHandleUdp` -/
 def handle (m : Mem) (len : Nat) : Result :=
   if len = 0 then ⟨0, .nothing, m, 0, 0⟩ else
   -- icpCount(buf, RECV, len, 0) looks at the opcode only if a whole header arrived; then `buf[len] = '\0'`
   let m1 := m.set len 0
-  let ver := if len > 1 then rd m1 1 else 0
-  if len < icpHeaderSize then ⟨ver, .ignoreShort, m1, 0, len + 1⟩ else
-  if ver ≠ 2 ∧ ver ≠ 3 then ⟨ver, .ignoreVersion, m1, icpHeaderSize, len + 1⟩ else
-  -- icp_common_t header(buf, len): memcpy of the 20 header octets, length = ntohs(...)
-  let hlen := rd m1 2 * 256 + rd m1 3
-  let op := rd m1 0
-  if len ≠ hlen then ⟨ver, .badLen, m1, icpHeaderSize, len + 1⟩ else
-  if op = opQuery then
-    match getUrl m1 hlen op with
-    | (.error e, h) => ⟨ver, .queryBadUrl e, m1, max icpHeaderSize h, len + 1⟩
-    | (.ok u, h) => ⟨ver, .query u, m1, max icpHeaderSize h, len + 1⟩
-  else if isReplyOp op then
-    match getUrl m1 hlen op with
-    | (.error e, h) => ⟨ver, .replyBadUrl e, m1, max icpHeaderSize h, len + 1⟩
-    | (.ok u, h) => ⟨ver, .reply u, m1, max icpHeaderSize h, len + 1⟩
-  else if isNopOp op then ⟨ver, .nop, m1, icpHeaderSize, len + 1⟩
-  else ⟨ver, .unknownOp, m1, icpHeaderSize, len + 1⟩
+  ⟨rd m1 1, (classify m1 len).1, m1, (classify m1 len).2, len + 1⟩
 
 /-- the receive buffer after `recvfrom`: the datagram (cut to one octet less than the buffer), then what an earlier
 datagram left (`stale`, as far as it fits before the last octet), then zeros -/
